@@ -28,6 +28,7 @@ CLAIMED['C05'] = dict(engine='E1', technique='explicit-state BFS over real SyncO
 CLAIMED['C11'] = dict(engine='E1', technique='exhaustive enumeration of an input grid (payload sizes x batch sizes x journal kinds x append modes x argument shapes), each grid point executed on real SyncObj nodes', text='Every payload length 0..4*batch+64 for batch sizes 1, 7, 64, 200 and the bands k*batch+-64 (k=1..4) for 4096 and 65536, memory and file journal (simulated FS), batch and non-batch mode, positional/keyword/both/nested/no arguments, submitted on leader (and via a follower, thorough): no exception escapes any step, every replica executes the call exactly once with equal arguments, callback SUCCESS.', note='default schedule per grid point (submit, heartbeats, FIFO delivery to quiescence); content of the payload is a fixed pattern; quick tier thins the 64 KiB bands and some file/non-batch ranges (listed per job in the evidence)', ref='4/C11')
 CLAIMED['C12'] = dict(engine='E1', technique='explicit-state BFS over real SyncObj nodes with ok / raising submissions on every node; closing run from every state', text='All interleavings of up to 4 (quick: 2-4) ok/raising submissions on leader and followers with ticks and deliveries, 1-3 nodes, batch and non-batch: no exception escapes a tick or handler; each callback exactly once; from every state the closing run shows every replica past the raising command, later commands applied, replicas equal, every callback fired.', note='raising method = deterministic ValueError on every replica; fault-free network in these jobs; replay-from-journal variant is part of the C06 machinery', ref='4/C12')
 CLAIMED['C20'] = dict(engine='E1', technique='explicit-state BFS over real SyncObj nodes with fallback-sized time steps; ghost silence clocks per (leader, peer)', text='2-5 voters (+1 observer), fallback timeout 1.5x / 3.5x the heartbeat period and 30 s, all patterns of endpoint-noticed and black-holed link loss within the X budget interleaved with heartbeats, fallback-sized ticks and submissions: after every tick of a leader that has not heard from a majority within the timeout it no longer reports itself leader; a submission made while physically cut off from a majority is never answered SUCCESS while still cut off; hasQuorum equals connected-to-a-majority in every state.', note='a node can only step down when it ticks, so the oracle is evaluated after each tick; heard-from = any delivered message (the implementation counts only acknowledgements and can only be more eager); ' + RAFT_NOTE, ref='4/C20')
+CLAIMED['C18'] = dict(engine='E1', technique='explicit-state BFS over real SyncObj nodes including 1-3 read-only nodes that join, leave and re-join; voters-only majorities in the oracle; closing runs', text='2-3 voters with 1-3 nodes without own address, budgets of elections, heartbeats, submissions (also through observers), drops and reconnects of observer and voter links, observers needing a snapshot: no vote request/answer ever leaves an observer, it never leads, a leader is elected only with votes of a voter majority, commits are backed by a voter majority (also when voters alone cannot form one), observers satisfy the C01 replay oracle, submissions through them the C02 contract, closing runs converge including observers.', note='observers dial every voter and are numbered per acceptor like the TCP transport does; closing run on the residue class key mod 7 == 0 of states; ' + RAFT_NOTE, ref='4/C18')
 NOT_YET = {}
 for i in ids:
     if i not in CLAIMED:
